@@ -114,6 +114,11 @@ def directed_units(rng, ws, n_each):
         for f in ('c + 1', 'c * 2', 'c - 1', 'c', 'c + c', '(c is int) + 200', 'c + d', '-c', '255 - c + 256'):
             src = decl + 'empty @is_you(int i, int j) { %sbyte c = i is byte; byte d = j is byte; write("<"); table[%s] = 12; write(table[%s]); write(">"); write(canary); }\n' % (pre, f, f)
             units.append((src, [Cfg((str(i), str(j)), w, 700, False) for (i, j) in ((0, 0), (1, 1), (127, 1), (128, 128), (200, 100), (255, 1), (255, 255), (150, 149)) for w in ws[:2]]))
+    # dividends that fold to the constant 0 (or 1) over run-time divisors: `0 / d` must still fault when d is 0
+    for dv in ('int d = j;', 'byte d = j is byte;'):
+        for e in ('0 / d', '0 % d', '(3 - 3) / d', 'Z % d', 'Z / d', '(Z * 5) / d', '1 / d', '(i - i) / d', '0 / (d + 0)', '(0 / d) + (0 % d)', '0 * (5 / d)', '(5 / d) * 0'):
+            src = 'const int Z = 0;\nempty @is_you(int i, int j) { %s write("<"); write(%s); write(">"); }\n' % (dv, e)
+            units.append((src, [Cfg((str(i), str(j)), w, 100, False) for i in (0, 7) for j in (0, 1, 2, 256) for w in ws[:2]]))
     # nonlocal preempt at return
     src = ('empty !baba(int c) { if (c > 5) { preempt { write("p"); } } write("b"); }\n'
            'empty @is_you(int a, int b) { try { write("<"); !baba(a); !truth_is_defeat(b > 0); write(">"); } undo { write("U"); } write("."); }\n')
@@ -159,6 +164,43 @@ def directed_units(rng, ws, n_each):
     return units
 
 
+def fixed_expectation_check(ctx, ws):
+    """Division guards over dividends that the FRONT END may fold (0 / d, Z % d, (3 - 3) / d ...): the reference semantics interprets
+    the checked tree of hidc's own front end, so a wrong simplification there is invisible to the differential sweep.  Here the expected
+    outcome is written down independently: the guard faults exactly when the divisor is zero."""
+    import hidrun
+    forms = [('0 / d', 0), ('0 % d', 0), ('(3 - 3) / d', 0), ('Z % d', 0), ('Z / d', 0), ('(Z * 5) / d', 0), ('(i - i) / d', 0), ('0 / (d + 0)', 0), ('(0 / d) + (0 % d)', 0),
+             ('0 * (5 / d)', 0), ('(5 / d) * 0', 0), ('0 / d / d', 0), ('-(0 % d)', 0), ('(0 / d) is bool', 'false'), ('0 / d == 0', 'true'), ('(0 / d) is byte', '\x00')]
+    cases, meta = [], []
+    for decl, dval in (('int d = j;', lambda j, w: j), ('byte d = j is byte;', lambda j, w: j & 255), ('int d = j * 256;', lambda j, w: hidrun_wrap(j * 256, w))):
+        for e, val in forms:
+            src = 'const int Z = 0;\nempty @is_you(int i, int j) { %s write("<"); write(%s); write(">"); }\n' % (decl, e)
+            for w in ws[:2]:
+                for j in (0, 1, 2, 256, -256, 3):
+                    cases.append(hidrun.Case(src, ('7', str(j)), w, 100, False, 400_000, None))
+                    meta.append((src, e, val, dval(j, w) == 0, j, w))
+    runs = hidrun.run_cases(cases)
+    n = 0
+    for (src, e, val, zero, j, w), r in zip(meta, runs):
+        end, flags, out = hidrun.terminal(r)
+        n += 1
+        if zero:
+            ok = end == 'error' and flags == ['division_by_zero', 'error'] and out == b'<'
+            want = 'division_by_zero, error after "<"'
+        else:
+            ok = end == 'win' and flags == ['win'] and out == b'<' + str(val).encode('latin1').decode('unicode_escape').encode('latin1') + b'>'
+            want = 'win with output <%s>' % val
+        if not ok:
+            ctx.violate('division guard over a foldable dividend: expected %s' % want, cls='fixed_expectation', source=src, args=['7', str(j)], w=w, got=[end, flags, out.decode('latin1')])
+    ctx.cov['evaluations'] += n
+
+
+def hidrun_wrap(v, w):
+    M = 1 << (8 * w)
+    v %= M
+    return v - M if v >= M >> 1 else v
+
+
 def run(ctx):
     rng = random.Random(ctx.seed)
     q = ctx.tier == 'quick'
@@ -167,4 +209,5 @@ def run(ctx):
     diff_sweep(ctx, 'directed fault grid (access form x element type x storage x boundary index/divisor/length)', directed_units(rng, ws, 0), extra=h, monitor=True)
     units = program_units(rng, 110 if q else 1500, ALL + ['faults'], [2, 3, 4] if q else WS, cfgs_per=4, seed_base=ctx.seed + 500)
     diff_sweep(ctx, 'random programs with unguarded divisors/indices/lengths', units, extra=h, monitor=True)
+    fixed_expectation_check(ctx, ws)
     ctx.cov['rule'] = sweeps.RULE + '; directed grid = every access form x element type x storage class with the index/divisor/length driven by the input over the boundary grid'
